@@ -13,3 +13,5 @@ import Theorems.C20
 import Theorems.C04
 import Theorems.C10
 import Theorems.C11
+import Theorems.Typed
+import Theorems.C03T
